@@ -39,6 +39,14 @@ def run(run):
     try:
         for i in range(n):
             case = g.pipeline()
+            if i % 10 == 7:
+                # a one-shot stream handed from one node to the next through the context (a generator made by node k, read by
+                # node k+1, then dropped): the reader must receive the WHOLE stream - nothing else in the run may consume it
+                case = dict(case, nodes=list(case["nodes"]))
+                pos = g.rng.randint(1, len(case["nodes"]))
+                case["nodes"][pos:pos] = [{"processor": "VCtxMakeIter", "parameters": {"n": g.rng.randint(1, 4)}},
+                                          {"processor": "VCtxIterSum"}, {"processor": "delete:items"}]
+                run.count("cases_with_one_shot_stream")
             via_yaml = (i % 2 == 1)
             m = compare(run, case, via_yaml, scratch)
             if m is None:
